@@ -70,6 +70,10 @@ macro_rules! impl_convert {
             });
 
         let mut offset = 0;
+        // The first offset is always zero
+        offsets_writer
+            .write_gamma(0)
+            .context("Could not write gamma")?;
         for _ in 0..num_nodes {
             iter.next_degree()?;
             let new_offset = iter.get_decoder().offset;
@@ -80,10 +84,6 @@ macro_rules! impl_convert {
             pl.light_update();
         }
         let bitstream_len = iter.get_decoder().offset;
-        offsets_writer
-            .write_gamma((bitstream_len - offset) as u64)
-            .context("Could not write gamma")?;
-        pl.light_update();
         pl.done();
         offsets_writer.flush().context("Could not flush offsets")?;
 
